@@ -60,7 +60,7 @@ typedef struct trial {
 	int use_global;
 	int retarget;                /* retarget mode: queues [ntargets, nq) are leaves whose target changes while they are in use */
 	int ntargets;
-	_Atomic int rt_stop;
+	_Atomic int rt_stop, rt_stalled;
 	_Atomic uint64_t retargets, ephemeral, to_workloop, while_suspended;
 	dispatch_queue_t rt_workloop;
 	_Atomic int frozen[MAXQ];      /* leaf was moved onto a workloop: it cannot be retargeted anymore */
@@ -343,6 +343,8 @@ static void build_retarget_graph(trial_t *t)
 		q->q = dispatch_queue_create(q->label, attr);
 		if (leaf && vf_rnd_n(r, 2)) dispatch_set_target_queue(q->q, t->qs[vf_rnd_n(r, (uint32_t)t->ntargets)].q);
 	}
+	vf_trace_watch_reset();
+	for (int i = t->ntargets; i < t->nq; i++) vf_trace_watch((char *)t->qs[i].q + 56);   /* dq_state of the leaves */
 	t->rt_workloop = (dispatch_queue_t)dispatch_workloop_create("vf.rt.workloop");
 	for (int i = 0; i < MAXQ; i++) pthread_mutex_init(&t->rt_mtx[i], NULL);
 	t->retarget = 1;
@@ -353,13 +355,22 @@ static void *retargeter_main(void *arg)
 	trial_t *t = arg;
 	vf_rng_t r;
 	vf_rng_seed(&r, t->salt, 0x7e7a);
+	uint64_t seen_done = 0, seen_at = vf_now_ns(CLOCK_MONOTONIC);
 	while (!atomic_load(&t->rt_stop)) {
+		/* clients stalled for 1.5 s: stop touching the library so that the watchdog gets a stuck witness and the
+		 * trace rings keep the history */
+		uint64_t d = atomic_load(&t->done) + atomic_load(&t->expected), now = vf_now_ns(CLOCK_MONOTONIC);
+		if (d != seen_done) { seen_done = d; seen_at = now; }
+		else if (now - seen_at > 1500000000ull) {
+			if (!atomic_exchange(&t->rt_stalled, 1)) vf_trace_dump_watched();
+			struct timespec ts = { 0, 20000000 }; nanosleep(&ts, NULL); continue;
+		}
 		int li = t->ntargets + (int)vf_rnd_n(&r, (uint32_t)(t->nq - t->ntargets));
 		hq_queue_t *leaf = &t->qs[li];
 		pthread_mutex_lock(&t->rt_mtx[li]);
 		if (atomic_load(&t->frozen[li])) { pthread_mutex_unlock(&t->rt_mtx[li]); sched_yield(); continue; }
 		uint32_t c = vf_rnd_n(&r, 13);
-		if (vf_rnd_n(&r, 400) == 0) {
+		if (vf_opt_long("rt-wl", 1) && vf_rnd_n(&r, 400) == 0) {
 			/* one way: a queue that targets a workloop is not retargetable anymore */
 			atomic_store(&t->frozen[li], 1);
 			dispatch_set_target_queue(leaf->q, t->rt_workloop);
@@ -368,11 +379,12 @@ static void *retargeter_main(void *arg)
 			pthread_mutex_unlock(&t->rt_mtx[li]);
 			continue;
 		}
-		int susp = vf_rnd_n(&r, 6) == 0;
+		int susp = vf_opt_long("rt-susp", 1) && vf_rnd_n(&r, 6) == 0;
 		if (susp) { dispatch_suspend(leaf->q); atomic_fetch_add(&t->while_suspended, 1); }
 		dispatch_queue_t tq = c < 7 ? t->qs[vf_rnd_n(&r, (uint32_t)t->ntargets)].q :
 				c < 9 ? dispatch_get_global_queue(c == 7 ? DISPATCH_QUEUE_PRIORITY_DEFAULT : DISPATCH_QUEUE_PRIORITY_LOW, 0) :
 				c < 10 ? DISPATCH_TARGET_QUEUE_DEFAULT : NULL;
+		if (c >= 10 && !vf_opt_long("rt-eph", 1)) { c = 9; tq = DISPATCH_TARGET_QUEUE_DEFAULT; }
 		if (c >= 10) {
 			/* an ephemeral target: the leaf holds the only reference ("the queue is retained, and the previous
 			 * target queue, if any, is released"), so the next retarget of this leaf disposes of it (C17) */
@@ -561,9 +573,11 @@ static void teardown(trial_t *t)
 	if (t->rt_workloop) dispatch_release(t->rt_workloop);
 }
 
+trial_t *g_cur_trial;   /* for debuggers */
 static void run_std_trial(int idx)
 {
 	trial_t *t = calloc(1, sizeof(*t));
+	g_cur_trial = t;
 	t->idx = idx;
 	vf_rng_seed(&t->rng, vf_opts.seed, (uint64_t)idx * 7919 + 13);
 	vf_rng_t *r = &t->rng;
